@@ -518,6 +518,21 @@ def no_hidden_state(chk, repo, pid):
             for w in s.writes:
                 if w.param == first:
                     bad.append((f.key, f'class attribute of {f.cls.name} ({w.detail})', w.how, w.loc))
+        # a mutable default argument that the function updates is one object shared by every call that relies on it
+        for node in [f.node]:
+            args = node.args
+            pos = args.posonlyargs + args.args
+            pairs = list(zip(pos[len(pos) - len(args.defaults):], args.defaults)) + \
+                [(a, d) for a, d in zip(args.kwonlyargs, args.kw_defaults) if d is not None]
+            for a, d in pairs:
+                mutable = isinstance(d, (ast.Dict, ast.List, ast.Set)) or \
+                    (isinstance(d, ast.Call) and dotted(d.func) in ('dict', 'list', 'set', 'np.zeros', 'np.ones', 'np.empty',
+                                                                    'np.array', 'numpy.zeros', 'collections.defaultdict'))
+                if not mutable:
+                    continue
+                for w in s.writes:
+                    if w.param == a.arg:
+                        bad.append((f.key, f'default value of parameter `{a.arg}`', w.how, w.loc))
     seen = set()
     for fk, name, how, loc in bad:
         if (fk, name) in seen:
